@@ -339,7 +339,7 @@ def observe_db(conn, tname, universe=(), schema=None):
 
 # ------------------------------------------------------------------------------- statements
 
-_IGN = re.compile(r"^\s*(PRAGMA|SELECT|BEGIN)\b", re.I)
+_IGN = re.compile(r"^\s*(PRAGMA|SELECT|BEGIN|SAVEPOINT|RELEASE|ROLLBACK)\b", re.I)
 
 
 def abstract_stmt(sql, tname, schema=None):
@@ -689,6 +689,21 @@ def run_batch(db, ops, recreate="always", copy_from=False, fault=None, scope="no
                 elif scope == "outer":
                     with conn.begin():
                         body()
+                elif scope in ("sp_release", "sp_rollback"):
+                    # the caller holds a SAVEPOINT of its own (Connection.begin_nested()), catches the error of the batch and
+                    # then RELEASEs the savepoint (sp_release) or rolls back to it (sp_rollback), and commits
+                    sp = conn.begin_nested()
+                    try:
+                        body()
+                    except Exception as e:
+                        outcome = exc_kind(e)
+                    except INJECTED as e:
+                        outcome = exc_kind(e)
+                    if outcome != "ok" and scope == "sp_rollback":
+                        sp.rollback()
+                    else:
+                        sp.commit()
+                    conn.commit()
                 else:
                     with conn.begin():
                         try:
